@@ -177,7 +177,7 @@ func (e *BinaryOpExpr) execEqualBatch(chunk []KVPair, not bool, ctx *ExecuteCtx)
 	switch rleft[0].(type) {
 	case string, []byte:
 		isStr = true
-	case int, int8, int16, int32, int64, uint, uint8, uint16, uint32, uint64:
+	case int, int8, int16, int32, int64, uint, uint8, uint16, uint32, uint64, float32, float64:
 		isInt = true
 	case bool:
 		isBool = true
@@ -199,15 +199,15 @@ func (e *BinaryOpExpr) execEqualBatch(chunk []KVPair, not bool, ctx *ExecuteCtx)
 			}
 		}
 		if isInt {
-			left, lok := convertToInt(rleft[i])
-			right, rok := convertToInt(rright[i])
-			if !lok || !rok {
+			// integers and floats compare by numeric value
+			equal, err := execNumberCompare(rleft[i], rright[i], "=")
+			if err != nil {
 				return nil, NewExecuteError(e.GetPos(), "= operator left or right expression has wrong type")
 			}
 			if not {
-				rleft[i] = left != right
+				rleft[i] = !equal
 			} else {
-				rleft[i] = left == right
+				rleft[i] = equal
 			}
 		}
 		if isBool {
